@@ -219,9 +219,22 @@ def parse_M(out):
 def eval_shard(path):
     t = time.time()
     rc, out = sh(["coqc", "-R", os.path.join(COQ, "theories"), "VF", path], cwd=os.path.dirname(path), timeout=1800)
+    base = path[:-2]
+    for ext in (".vo", ".vok", ".vos", ".glob"):
+        try:
+            os.remove(base + ext)
+        except OSError:
+            pass
+    try:
+        os.remove(os.path.join(os.path.dirname(path), "." + os.path.basename(base) + ".aux"))
+    except OSError:
+        pass
     if rc != 0:
         return path, None, out[-2000:], time.time() - t
-    return path, parse_M(out), out[-500:], time.time() - t
+    M = parse_M(out)
+    if M == [] and os.path.getsize(path) > 2000000:
+        os.remove(path)        # a large shard with nothing to report is not kept (disk)
+    return path, M, out[-500:], time.time() - t
 
 
 def crash_in_repo(out):
